@@ -1077,6 +1077,36 @@ func loopTerminates(info *types.Info, f *ScopeFunc, fs *ast.ForStmt, ci, ciStron
 		}
 		progressWhy = why
 	}
+	// probing a finite map with a strictly increasing key: for m[k] { k++ }
+	if fs.Cond != nil {
+		if ix, ok := core.Unparen(fs.Cond).(*ast.IndexExpr); ok {
+			if _, isMap := info.TypeOf(ix.X).Underlying().(*types.Map); isMap {
+				if id, ok := ix.Index.(*ast.Ident); ok {
+					steps, other := 0, 0
+					ast.Inspect(fs.Body, func(n ast.Node) bool {
+						switch x := n.(type) {
+						case *ast.IncDecStmt:
+							if core.ExprStr(x.X) == id.Name && x.Tok == token.INC {
+								steps++
+							} else if core.ExprStr(x.X) == id.Name {
+								other++
+							}
+						case *ast.AssignStmt:
+							for _, l := range x.Lhs {
+								if core.ExprStr(l) == id.Name {
+									other++
+								}
+							}
+						}
+						return true
+					})
+					if steps > 0 && other == 0 && len(fs.Body.List) == 1 {
+						return "the key " + id.Name + " only increases and the loop continues only while it is present in the map " + core.ExprStr(ix.X) + ", which has finitely many keys", true
+					}
+				}
+			}
+		}
+	}
 	// shrinking slice: cond mentions len(X) and body assigns X = X[k:] / X, … = X[0], X[1:]
 	if fs.Cond != nil {
 		var shr string
